@@ -419,6 +419,7 @@ pub fn main(o: &Opts) -> i32 {
         Tier::Thorough => program_space(2, 1),
     };
     progs.extend(size_family(if o.tier == Tier::Quick { 3 } else { 5 }).into_iter().map(|x| x.3));
+    progs.extend(extra_programs());
     progs.push(Program::parse("C C M Kd R[Z M Kc T] R[Z A Kd]").unwrap());
     if let Some(path) = &o.replay {
         let v: Value = serde_json::from_str(&std::fs::read_to_string(path).unwrap()).unwrap();
